@@ -62,6 +62,10 @@ pub struct Scenario {
     /// an actor that removes the registration frame of this context (C07)
     #[serde(default)]
     pub remove_ctx: Option<usize>,
+    /// after the pre-history the clock jumps two hours: its `time:3600000` frames are expired
+    /// (still stored, not yet collected) when the actors start
+    #[serde(default)]
+    pub clock_jump: bool,
 }
 
 const ACTIVE_DEFAULT: &[&str] = &[
@@ -171,6 +175,10 @@ pub fn run_one(sc: &Scenario, prefix: &[usize], props: &[&str]) -> ExecResult {
         });
     }
 
+    if sc.clock_jump {
+        let now = std::time::SystemTime::now().duration_since(std::time::UNIX_EPOCH).unwrap().as_millis() as u64;
+        xs::verif::set_clock(Some(now + 2 * 3_600_000));
+    }
     let active: Vec<&'static str> = sc.active.iter().map(|s| leak(s)).collect();
     let ctl = Ctl::new(&active);
     let sched: Arc<dyn xs::verif::Sched> = ctl.clone();
@@ -449,7 +457,7 @@ pub fn run_one(sc: &Scenario, prefix: &[usize], props: &[&str]) -> ExecResult {
                     late_beats += 1;
                 }
             }
-            check_reader(ri, rs, &log, g_start, &app, &ctx_ids, &pre_ids, &senders, late_beats, &mut findings, props, probed || !sc.probe);
+            check_reader(ri, rs, &log, g_start, &app, &ctx_ids, &pre_ids, &senders, late_beats, &mut findings, props, probed || !sc.probe, sc.clock_jump);
             outcome.push_str(&format!(
                 "r{}:[{}]{};",
                 ri,
@@ -480,6 +488,7 @@ pub fn run_one(sc: &Scenario, prefix: &[usize], props: &[&str]) -> ExecResult {
     }
 
     // --- teardown -------------------------------------------------------------------------
+    xs::verif::set_clock(None);
     ctl.release_all();
     for t in threads {
         let _ = t.join();
@@ -617,6 +626,7 @@ fn check_reader(
     findings: &mut Vec<Finding>,
     props: &[&str],
     final_phase: bool,
+    clock_jump: bool,
 ) {
     let follow = rs.follow != "off";
     let scope = rs.ctx.map(|c| ctx_ids[c]);
@@ -643,7 +653,9 @@ fn check_reader(
     for a in app {
         let in_scope = scope.map(|c| a.frame.context_id == c).unwrap_or(true);
         let after_pos = last_id.map(|l| a.frame.id > l).unwrap_or(true);
-        if !in_scope || !after_pos {
+        // a time:N frame of the pre-history is expired once the clock has jumped: it does not match
+        let expired = clock_jump && a.writer.is_none() && matches!(a.frame.ttl, Some(TTL::Time(_)));
+        if !in_scope || !after_pos || expired {
             forbidden.insert(a.frame.id);
             continue;
         }
@@ -813,6 +825,7 @@ fn base(name: &str) -> Scenario {
         active: ACTIVE_DEFAULT.iter().map(|s| s.to_string()).collect(),
         bound: None,
         remove_ctx: None,
+        clock_jump: false,
     }
 }
 
@@ -939,6 +952,24 @@ pub fn scenarios(prop: &str, tier: &str) -> Vec<Scenario> {
                         v.push(s);
                     }
                 }
+            }
+            // expired-but-uncollected frames in front of / between the matches: they neither match nor count
+            for (nm, pre, follow) in [
+                ("n2-expired-front-off", vec!["t", "t", "f", "f", "f"], "off"),
+                ("n2-expired-front-on", vec!["t", "t", "f", "f", "f"], "on"),
+                ("n2-expired-mid-on", vec!["f", "t", "f", "f"], "on"),
+                ("n2-expired-all-on", vec!["t", "t"], "on"),
+            ] {
+                let mut s = base(nm);
+                s.pre = pre.iter().map(|k| if *k == "t" { fs("h", 0, "time:3600000") } else { fs("h", 0, "") }).collect();
+                s.writers = vec![vec![fs("a", 0, ""), fs("a", 0, "")]];
+                s.readers = vec![rd(follow, false, None, Some(2), None)];
+                s.clock_jump = true;
+                s.probe = true;
+                if !thorough {
+                    s.bound = Some(1);
+                }
+                v.push(s);
             }
             // tail + limit, context + limit, last-id + limit
             let mut s = base("n1-tail");
